@@ -138,7 +138,7 @@ def _r12_1(prog: Program, res: Result) -> None:
     seen = set()
     first_phase = True
     slack = "slack"
-    for s in fn2.node.body:
+    for s in sorted((x for x in walk_own(fn2.node) if isinstance(x, (ast.Assign, ast.For))), key=lambda x: x.lineno):
         # the slack: `<name> = length - <sum of the minimum counts>`, computed between the two passes over the template
         if isinstance(s, ast.Assign) and isinstance(s.targets[0], ast.Name) and isinstance(s.value, ast.BinOp) and isinstance(s.value.op, ast.Sub) \
                 and norm(s.value.left) == length:
@@ -174,12 +174,12 @@ def _r12_1(prog: Program, res: Result) -> None:
                     effects.setdefault(cls, {})[a.target.id] = ("-" if isinstance(a.op, ast.Sub) else "+") + norm(a.value)
                 elif isinstance(a, ast.Assign) and isinstance(a.targets[0], ast.Name):
                     effects.setdefault(cls, {})[a.targets[0].id] = "=" + norm(a.value)
-    inits = [s for s in fn3.node.body if isinstance(s, ast.Assign) and len(s.targets) == 2]
+    inits = [s for s in walk_own(fn3.node) if isinstance(s, ast.Assign) and len(s.targets) == 2]
     base_ok = any(norm(s.value).replace(" ", "") == f"len({fn3.posparams[1]})" for s in inits)
     # which of the two counters is the minimum and which the maximum is read off the filter `not MIN <= len(..) <= MAX`
     mins, maxs = [], []
     both = {t.id for s in inits for t in s.targets if isinstance(t, ast.Name)}
-    for s in fn3.node.body:
+    for s in walk_own(fn3.node):
         t = s.test.operand if isinstance(s, ast.If) and isinstance(s.test, ast.UnaryOp) and isinstance(s.test.op, ast.Not) else None
         if isinstance(t, ast.Compare) and len(t.ops) == 2 and all(isinstance(o, (ast.LtE, ast.Lt)) for o in t.ops) \
                 and isinstance(t.left, ast.Name) and isinstance(t.comparators[1], ast.Name) and {t.left.id, t.comparators[1].id} <= both:
@@ -198,7 +198,7 @@ def _r12_1(prog: Program, res: Result) -> None:
                        f"{cls} contributes {DECLARATIVE[cls]} elements (each plain element 1)" if ok else
                        f"{cls} must change (min, max) by ({want_min}, {want_max}) relative to one element each")
         # the filter itself
-        filt = [s for s in fn3.node.body if isinstance(s, ast.If) and mn in norm(s.test) and mx in norm(s.test)]
+        filt = [s for s in walk_own(fn3.node) if isinstance(s, ast.If) and mn in norm(s.test) and mx in norm(s.test)]
         ok = bool(filt) and norm(filt[0].test).replace(" ", "") == f"not{mn}<=len({fn3.posparams[0]})<={mx}"
         res.decide(ok, "R12.1", fn3.loc(filt[0]) if filt else fn3.loc(), fn3.fq, "length filter test",
                    "rejects exactly the lists whose length is outside [min, max]" if ok else f"filter is `{norm(filt[0].test) if filt else '?'}`")
@@ -216,18 +216,20 @@ def _isinstance_tuple_assigns(body) -> List[Tuple[str, Optional[Tuple[str, str]]
 
     def chain(s):
         while isinstance(s, ast.If):
-            t = s.test
+            t, then, other = s.test, s.body, s.orelse
+            if isinstance(t, ast.UnaryOp) and isinstance(t.op, ast.Not):     # `if not isinstance(x, K): <else part> else: <K part>`
+                t, then, other = t.operand, s.orelse, s.body
             if isinstance(t, ast.Call) and isinstance(t.func, ast.Name) and t.func.id == "isinstance":
                 names = [t.args[1].id] if isinstance(t.args[1], ast.Name) else \
                     [x.id for x in t.args[1].elts if isinstance(x, ast.Name)] if isinstance(t.args[1], ast.Tuple) else []
-                tup, node_ = tup_of(s.body)
+                tup, node_ = tup_of(then)
                 for nm in names:
                     out.append((nm, tup, node_ or s))
-            if len(s.orelse) == 1 and isinstance(s.orelse[0], ast.If):
-                s = s.orelse[0]
+            if len(other) == 1 and isinstance(other[0], ast.If):
+                s = other[0]
             else:
-                if s.orelse:
-                    tup, node_ = tup_of(s.orelse)
+                if other:
+                    tup, node_ = tup_of(other)
                     out.append(("plain", tup, node_ or s))
                 break
     for s in body:
@@ -401,7 +403,9 @@ def _r12_4(prog: Program, res: Result) -> None:
     res.decide(type_branch, "R12.4", fn4.loc(), fn4.fq, "type template", "matches exactly the instances of the type" if type_branch else "type templates no longer test isinstance(node, template)")
     ast_branch = any(f"isinstance({node_p}, type({tmpl_p}))" in t and "_match_template_vars" in t for t in texts)
     res.decide(ast_branch, "R12.4", fn4.loc(), fn4.fq, "AST template", "requires the node to be of the template's class, then compares fields" if ast_branch else "AST templates no longer require the same node class")
-    last = fn4.node.body[-1]
+    from ..model import last_return
+    last = last_return(fn4.node) or fn4.node
+    texts = [norm(x).replace("_isinstance_cache(", "isinstance(") for x in walk_own(fn4.node) if isinstance(x, (ast.If, ast.Return))]
     eq_branch = any(f"{node_p} == {tmpl_p}" in t for t in texts) and isinstance(last, ast.Return) and norm(last.value) == "()"
     res.decide(eq_branch, "R12.4", fn4.loc(last), fn4.fq, "leaf values", "compared by equality, default is no match" if eq_branch else "leaf comparison / default no-match changed")
     const_branch = any(f"{node_p} is {tmpl_p}" in t for t in texts)
@@ -471,8 +475,10 @@ def _r12_5(prog: Program, res: Result) -> None:
                        "returned only after it was tested to be a successful (non-empty) match" if ok else
                        "the search returns from inside the loop over quantifier expansions a value that may be the empty (failed) match: "
                        "later expansions are never tried, valid matches with repeated wildcards are lost")
-        tail = fn.node.body[-1]
-        ok = isinstance(tail, ast.Return) and norm(tail.value) == "()"
+        from ..model import returns_after
+        tails = returns_after(fn.node, loop)
+        tail = tails[0] if tails else loop
+        ok = bool(tails) and all(norm(t.value) == "()" for t in tails)
         res.decide(ok, "R12.5", fn.loc(tail), fn.fq, "result after the loop is exhausted", "no match" if ok else "falling out of the expansion loop no longer means 'no match'")
 
 
